@@ -442,6 +442,7 @@ def check_t3(chk, m, K):
                % ([v for pos, v in tests], len(moves), "" if ok else ": " + "; ".join(why)), p.ret_inst.loc, fn.name)
     chk.expect("T3", "expiry decisions in handle_timerq", n, 2)
     fib.check_iterator_validity(chk, m, K)
+    fib.check_expiry_every_pass(chk, m, K)
 
 
 def _icmp_holds(pred, a, b):
